@@ -5,17 +5,18 @@ CONSTANTS
   CastTypes = {"B", "c", "sc", "uc", "s", "us", "i", "u", "l", "ul", "ll", "ull"}
   BinOps = {"+", "-", "*", "/", "%", "<<", ">>", "&", "|", "^", "<", "<=", ">", ">=", "==", "!=", "&&", "||", ","}
   UseCond = TRUE
-  LvTypes = {"B", "c", "sc", "uc", "s", "us", "i", "u", "l", "ul", "ll", "ull"}
-  AsgOps = {"=", "+=", "-=", "*=", "/=", "%=", "<<=", ">>=", "&=", "|=", "^="}
-  IncOps = {"++p", "p++", "--p", "p--"}
+  LvTypes = {}
+  AsgOps = {}
+  IncOps = {}
   UseEnum = TRUE
   UseLit = TRUE
-  BfWidths = {1, 3, 8, 15, 31, 32}
+  BfWidths = {}
   MaxDepth = 3
   MaxLeaves = 5
   MaxStack = 3
   MinParen = TRUE
   TwoPhase = TRUE
+  Rnd = TRUE
 INIT Init
 NEXT Next
 INVARIANT EmitInv
